@@ -37,7 +37,7 @@ INITIAL = {'a': {'np': 1, 'cmd': 0, 'gt': 0, 'envn': 0, 'st': 1}, 'b': {'np': 2,
 def edits(compound=False):
     out = [('noop', None)]
     for s in SLOTS:
-        out += [('toggle', s), ('np+', s), ('np-', s), ('cmd', s), ('gt', s), ('envn', s), ('st', s)]
+        out += [('toggle', s), ('np+', s), ('np-', s), ('cmd', s), ('gt', s), ('envn', s), ('st', s), ('noauto', s)]
     out.append(('env', None))
     if compound:
         # two options of one section changed by the same edit of the file (one reloadconfig for both)
@@ -97,7 +97,7 @@ def apply_edit(cfg, ed):
         # imported); applied again it takes the edit back
         c[s]['bad'] = 0 if c[s].get('bad') else int(op[3])
         return c, {s}, 'bad' if c[s]['bad'] else 'unbad'
-    c[s][op] = 1 - c[s][op]
+    c[s][op] = 1 - c[s].get(op, 0)
     return c, {s}, op
 
 
@@ -119,6 +119,8 @@ def render(path, cfg):
             # a stream given by class name (the worker's stdout is captured into a file next to the ini file)
             opts['stdout_stream.class'] = 'FileStream'
             opts['stdout_stream.filename'] = os.path.join(os.path.dirname(path), s + '.log')
+        if w.get('noauto'):
+            opts['autostart'] = 'False'
         if w.get('bad') == 1:
             opts['stderr_stream.class'] = 'FileStream'
             opts['stderr_stream.filename'] = os.path.join(os.path.dirname(path), 'missing-dir', s + '.err')
@@ -325,6 +327,8 @@ def run_seq(r, seq, judge_all=False):
                     b, a = set(before[s] or []), set(after[s] or [])
                     d = new[s]['np'] - cfg[s]['np']
                     ok = (b <= a and len(a - b) == d) if d > 0 else (a <= b and len(b - a) == -d)
+                    if new[s].get('noauto'):
+                        ok = not a and not b          # a watcher the file keeps stopped (autostart off) has no worker to add
                     others = [x for x in new_sig if x[1] not in (b - a)]
                     r.check('C12.np_only_delta', ok and not others,
                             lambda: desc() + ': numprocesses %d -> %d but pids %s -> %s, signals to others %s'
